@@ -109,6 +109,55 @@ def is_err_write(w):
 # V1 compare-before-accept
 # ------------------------------------------------------------------------------------------------
 
+def equality_helper_sound(db, name):
+    """a workspace `fn(a, b) -> bool` used to compare signatures: true may be returned only if the two inputs have equal length
+    (or it delegates to PartialEq).  Returns (ok, why)."""
+    b = db.body(name)
+    if b is None or b.argc < 2:
+        return False, "no body"
+    bodies = db.nested(b)
+    for x in bodies:
+        for bi, t in x.calls():
+            d = callee_def(t)
+            if d.endswith("cmp::PartialEq::eq") or d.endswith("cmp::PartialEq::ne") or d.endswith("ConstantTimeEq::ct_eq"):
+                if x is b:
+                    s0, s1 = flow.backward(b, t["args"][0]), flow.backward(b, t["args"][1])
+                    p0 = {l for l, _ in s0.params}
+                    p1 = {l for l, _ in s1.params}
+                    if (1 in p0 and 2 in p1) or (2 in p0 and 1 in p1):
+                        # whole-value equality unless both sides are only lengths
+                        if not (any(callee_def(c).endswith("::len") for _, c, _ in s0.calls) and any(callee_def(c).endswith("::len") for _, c, _ in s1.calls)):
+                            return True, "delegates to PartialEq"
+    # length comparison dominating every possibly-true return
+    len_eq_edges = set()
+    for bi, si, st in b.stmts():
+        rv = st["rv"]
+        if rv["k"] == "bin" and rv["op"] in ("Eq", "Ne"):
+            s0, s1 = flow.backward(b, rv["ops"][0]), flow.backward(b, rv["ops"][1])
+
+            def is_len_of(sl, p):
+                return p in {l for l, _ in sl.params} and (any(callee_def(c).endswith("::len") for _, c, _ in sl.calls) or
+                                                           any(d2["kind"] == "assign" and d2["rv"]["k"] == "un" and d2["rv"].get("op") == "PtrMetadata"
+                                                               for l in sl.locals for d2 in b.defs().get(l, [])))
+            if (is_len_of(s0, 1) and is_len_of(s1, 2)) or (is_len_of(s0, 2) and is_len_of(s1, 1)):
+                o = flow.outcomes_of_local(b, st["dst"]["l"])
+                len_eq_edges |= o.get("true") if rv["op"] == "Eq" else o.get("false")
+    for bi, t in b.calls():
+        d = callee_def(t)
+        if d.endswith("cmp::PartialEq::eq") or d.endswith("cmp::PartialEq::ne"):
+            s0, s1 = flow.backward(b, t["args"][0]), flow.backward(b, t["args"][1])
+            if any(callee_def(c).endswith("::len") for _, c, _ in s0.calls) and any(callee_def(c).endswith("::len") for _, c, _ in s1.calls):
+                o = flow.outcomes_of_call(b, bi)
+                len_eq_edges |= o.get("true") if d.endswith("::eq") else o.get("false")
+    if not len_eq_edges:
+        return False, "returns its verdict without comparing the lengths of its inputs: any prefix (even the empty string) compares equal"
+    rw = flow.return_writes(b)
+    maybe_true = [w for w in rw if not (w["kind"] == "use" and isinstance(w["rv"]["ops"][0], dict) and w["rv"]["ops"][0].get("c") == "int" and w["rv"]["ops"][0].get("v") == "0")]
+    if flow.must_pass(b, [w["bi"] for w in maybe_true], len_eq_edges):
+        return True, "length-checked"
+    return False, "a possibly-true result is reachable without passing the equal-length outcome"
+
+
 def rule_v1(chk, v):
     body = v.body
     key = v.name
@@ -118,10 +167,14 @@ def rule_v1(chk, v):
     problems = []
     for bi, t in body.calls():
         d = callee_def(t)
+        helper = False
         if not (d.endswith("cmp::PartialEq::ne") or d.endswith("cmp::PartialEq::eq")):
-            continue
+            hb = v.db.body(d)
+            if hb is None or hb.raw.get("ret") != "bool" or len(t["args"]) != 2 or not d.startswith("s3s::"):
+                continue
+            helper = True
         o = flow.outcomes_of_call(body, bi)
-        is_ne = d.endswith("::ne")
+        is_ne = d.endswith("::ne") and not helper
         eq_edges = o.get("false") if is_ne else o.get("true")
         ne_edges = o.get("true") if is_ne else o.get("false")
         if not eq_edges:
@@ -146,6 +199,11 @@ def rule_v1(chk, v):
         if ok_client is None:
             problems.append("the comparison at %s does not involve the client-supplied signature field" % body.loc(bi))
             continue
+        if helper:
+            okh, why = equality_helper_sound(v.db, d)
+            if not okh:
+                problems.append("signature comparison helper %s %s" % (short(d), why))
+                continue
         best = {"bi": bi, "eq": eq_edges, "ne": ne_edges, "computed": t["args"][ci], "client": t["args"][1 - ci], "client_src": ok_client,
                 "calc_calls": [(b2, ct) for b2, ct, _ in sls[ci].calls if is_calc_sig(callee_def(ct))]}
         break
